@@ -203,7 +203,7 @@ type lruItem struct {
 }
 
 func (dm *DMap) evictKeyWithLRU(e *env) error {
-	var idx = 1
+	var idx int
 	var items []lruItem
 
 	// Warning: fragment is already locked by DMap.Put. Be sure about that before editing this function.
